@@ -62,3 +62,75 @@ Proof.
   split; [vm_compute; discriminate|].
   split; [vm_compute; reflexivity|]. split; vm_compute; reflexivity.
 Qed.
+
+(* ---- the curve arithmetic the byte-exact reference (and ge.go) uses: the affine
+   twisted Edwards law over ANY field, and its extended-coordinate refinement.
+   Closure, identity, inverse, commutativity AND associativity are proved; the
+   non-vanishing of the denominators is a premise throughout (for Ed25519 it
+   follows from d being a non-square, which is not proved here:
+   CurveRef_ModuleLaws_partial). *)
+From Coq Require Import Field.
+From Kyber Require Import CurveRef.Field CurveRef.Edwards CurveRef.EdwardsAlg.
+
+Theorem C01_edwards_closed :
+  forall F zero one add mul sub opp div inv,
+    field_theory zero one add mul sub opp div inv (@eq F) ->
+    forall d x1 y1 x2 y2,
+      on_curve F one add mul sub d x1 y1 -> on_curve F one add mul sub d x2 y2 ->
+      add one (mul (mul (mul (mul d x1) x2) y1) y2) <> zero ->
+      sub one (mul (mul (mul (mul d x1) x2) y1) y2) <> zero ->
+      on_curve F one add mul sub d (fst (aff_add F one add mul sub div d (x1, y1) (x2, y2)))
+                                   (snd (aff_add F one add mul sub div d (x1, y1) (x2, y2))).
+Proof. intros F zero one add mul sub opp div inv Fth. exact (edwards_closed F zero one add mul sub opp div inv Fth). Qed.
+Print Assumptions C01_edwards_closed.
+
+Theorem C01_edwards_comm_identity_inverse :
+  forall F zero one add mul sub opp div inv,
+    field_theory zero one add mul sub opp div inv (@eq F) ->
+    forall d,
+      (forall p q, aff_add F one add mul sub div d p q = aff_add F one add mul sub div d q p) /\
+      (forall x y, aff_add F one add mul sub div d (x, y) (zero, one) = (x, y)) /\
+      (forall x y, on_curve F one add mul sub d x y ->
+         add one (mul (mul (mul (mul d x) (opp x)) y) y) <> zero ->
+         sub one (mul (mul (mul (mul d x) (opp x)) y) y) <> zero ->
+         aff_add F one add mul sub div d (x, y) (aff_neg F opp (x, y)) = (zero, one)).
+Proof.
+  intros F zero one add mul sub opp div inv Fth d. split; [|split].
+  - exact (edwards_comm F zero one add mul sub opp div inv Fth d).
+  - exact (edwards_identity F zero one add mul sub opp div inv Fth d).
+  - exact (edwards_inverse F zero one add mul sub opp div inv Fth d).
+Qed.
+Print Assumptions C01_edwards_comm_identity_inverse.
+
+Theorem C01_ext_add_refines :
+  forall F zero one add mul sub opp div inv,
+    field_theory zero one add mul sub opp div inv (@eq F) ->
+    forall d, add one one <> zero ->
+    forall p q x1 y1 x2 y2,
+      represents F zero mul p x1 y1 -> represents F zero mul q x2 y2 ->
+      add one (mul (mul (mul (mul d x1) x2) y1) y2) <> zero ->
+      sub one (mul (mul (mul (mul d x1) x2) y1) y2) <> zero ->
+      represents F zero mul (ed_add (aops F zero one add mul sub opp) (aK F zero add d) p q)
+                 (fst (aff_add F one add mul sub div d (x1, y1) (x2, y2)))
+                 (snd (aff_add F one add mul sub div d (x1, y1) (x2, y2))).
+Proof. intros F zero one add mul sub opp div inv Fth d. exact (ext_add_refines F zero one add mul sub opp div inv Fth d). Qed.
+Print Assumptions C01_ext_add_refines.
+
+Theorem C01_edwards_assoc :
+  forall F zero one add mul sub opp div inv,
+    field_theory zero one add mul sub opp div inv (@eq F) ->
+    forall d x1 y1 x2 y2 x3 y3,
+      on_curve F one add mul sub d x1 y1 -> on_curve F one add mul sub d x2 y2 -> on_curve F one add mul sub d x3 y3 ->
+      let A := aff_add F one add mul sub div d in
+      let den_p := fun (p q : F * F) => add one (mul (mul (mul (mul d (fst p)) (fst q)) (snd p)) (snd q)) in
+      let den_m := fun (p q : F * F) => sub one (mul (mul (mul (mul d (fst p)) (fst q)) (snd p)) (snd q)) in
+      den_p (x2, y2) (x3, y3) <> zero -> den_m (x2, y2) (x3, y3) <> zero ->
+      den_p (x1, y1) (x2, y2) <> zero -> den_m (x1, y1) (x2, y2) <> zero ->
+      den_p (x1, y1) (A (x2, y2) (x3, y3)) <> zero -> den_m (x1, y1) (A (x2, y2) (x3, y3)) <> zero ->
+      den_p (A (x1, y1) (x2, y2)) (x3, y3) <> zero -> den_m (A (x1, y1) (x2, y2)) (x3, y3) <> zero ->
+      A (x1, y1) (A (x2, y2) (x3, y3)) = A (A (x1, y1) (x2, y2)) (x3, y3).
+Proof.
+  intros F zero one add mul sub opp div inv Fth d x1 y1 x2 y2 x3 y3 H1 H2 H3 A den_p den_m.
+  exact (edwards_assoc F zero one add mul sub opp div inv Fth d x1 y1 x2 y2 x3 y3 H1 H2 H3).
+Qed.
+Print Assumptions C01_edwards_assoc.
